@@ -378,8 +378,13 @@ func (ex *explorer) branch(cond *smt.Term) bool {
 	case smt.Sat:
 		ex.shared.push(&workItem{prefix: ex.clonePrefix(decision{kind: dBranch, val: b2u(!b)}), model: ex.modelByName(m)})
 	case smt.Unknown:
-		ex.shared.inconclusive("solver unknown on branch feasibility: " + ex.solver.LastErr)
-		panic(pathEnd{"solver unknown"})
+		// The side the current model takes is feasible (the model witnesses it), so the path
+		// goes on; the other side stays undecided unless a guessed assignment satisfies it.
+		if gm := ex.guessModel(alt); gm != nil {
+			ex.shared.push(&workItem{prefix: ex.clonePrefix(decision{kind: dBranch, val: b2u(!b)}), model: ex.modelByName(gm)})
+		} else {
+			ex.shared.inconclusive("solver unknown on branch feasibility (side not explored): " + ex.solver.LastErr)
+		}
 	}
 	ex.decisions = append(ex.decisions, decision{kind: dBranch, val: b2u(b)})
 	if b {
@@ -388,6 +393,51 @@ func (ex *explorer) branch(cond *smt.Term) bool {
 		ex.addPC(ex.ctx.Not(cond))
 	}
 	return b
+}
+
+// guessModel looks for an assignment of the path's variables that satisfies the path condition
+// and extra by evaluation alone: the current model with some variables redrawn. A hit is a
+// checked witness (every conjunct evaluates to true), so it is as good as a solver model.
+func (ex *explorer) guessModel(extra *smt.Term) map[*smt.Term]uint64 {
+	vars := make([]*smt.Term, 0, len(ex.model))
+	for v := range ex.model {
+		vars = append(vars, v)
+	}
+	sort.Slice(vars, func(a, b int) bool { return vars[a].Name < vars[b].Name })
+	seed := uint64(0x9e3779b97f4a7c15)
+	next := func() uint64 {
+		seed ^= seed << 13
+		seed ^= seed >> 7
+		seed ^= seed << 17
+		return seed
+	}
+	for try := 0; try < 64; try++ {
+		m := make(map[*smt.Term]uint64, len(ex.model))
+		for _, v := range vars {
+			m[v] = ex.model[v]
+			if next()%4 == 0 {
+				w := uint(v.Sort)
+				r := next()
+				if w == 0 {
+					r &= 1
+				} else if w < 64 {
+					r &= (uint64(1) << w) - 1
+				}
+				m[v] = r
+			}
+		}
+		ok := ex.ctx.Eval(extra, m) == 1
+		for _, c := range ex.pc {
+			if !ok {
+				break
+			}
+			ok = ex.ctx.Eval(c, m) == 1
+		}
+		if ok {
+			return m
+		}
+	}
+	return nil
 }
 
 func b2u(b bool) uint64 {
